@@ -217,7 +217,14 @@ class C12(Prop):
                     except Exception as e:
                         rt = 'error: %s' % str(e)[:200]
                         env.conn.rollback()
-                tables.append({'in': inp, 'out': out, 'roundtrip': rt})
+                # the version table must be FOUND from its parent table (utils.version_table: what the association
+                # tracking and the relationship queries use)
+                try:
+                    found = sc.utils.version_table(pt)
+                    lk = 'ok' if found is vt else 'other table %r' % getattr(found, 'name', found)
+                except Exception as e:
+                    lk = 'error: %s: %s' % (type(e).__name__, str(e)[:100])
+                tables.append({'in': inp, 'out': out, 'roundtrip': rt, 'lookup': lk})
             # class maps
             vm, pm = m.version_class_map, m.parent_class_map
             maps_ok = (len(vm) == len(pm) and all(pm.get(v) is k for k, v in vm.items())
@@ -291,6 +298,8 @@ class C12(Prop):
                 out.violations.append({'clause': 'C12.SchemaOK', 'detail': {'table': t['out']['name'], 'actual': t['out'], 'config': t['in']}})
             if t['roundtrip'] != 'ok':
                 out.violations.append({'clause': 'C12.roundtrip', 'detail': {'table': t['out']['name'], 'result': t['roundtrip']}})
+            if t.get('lookup', 'ok') != 'ok':
+                out.violations.append({'clause': 'C12.version_table_lookup', 'detail': {'parent': t['in']['name'], 'result': t['lookup']}})
             if actual != mcols or nm(t['out']['name']) != mname:
                 out.mismatches.append({'stream': 'columns of %s' % t['out']['name'], 'impl': actual, 'model': mcols})
         return out
